@@ -3,6 +3,9 @@ from harness import faults as FT
 from harness import common as H
 from vlib import fakes as F
 
+# private-attribute groups (vlib/layout.py) the obligations of this module depend on
+LAYOUT = ['manager', 'coord', 'task', 'bex', 'tasksem', 'sws'] + ['cci', 'defer']
+
 EXPLANATION = (
     'C03: every transfer type (upload from path / seekable / non-seekable stream, copy, download to seekable / '
     'stream / path / special file, delete) in single-request and 2-part shape runs through the real TransferManager '
